@@ -467,13 +467,22 @@ func c08R4(c *Ctx) {
 				})
 				return uses
 			}
+			// … or a range loop over the result whose body records each item
+			rangeOver := map[ast.Node]bool{}
+			ast.Inspect(arm.Body, func(k ast.Node) bool {
+				if rs, ok := k.(*ast.RangeStmt); ok && identObj(info, rs.X) == lhs[0] && record(rs.Body) {
+					rangeOver[rs.X] = true
+				}
+				return true
+			})
+			via := func(nd ast.Node) bool { return iterates(nd) || rangeOver[nd] }
 			q := NewPathQuery(p, fn, nil)
 			q.Prune = func(cond ast.Expr, takeTrue bool) bool { return cond == arm.Cond && !takeTrue }
 			exit := func(nd ast.Node) bool {
 				_, isRet := nd.(*ast.ReturnStmt)
 				return isRet && nd.Pos() > arm.Body.Pos() && nd.End() <= arm.Body.End()
 			}
-			w := q.Escapes(isExactly(arm.Cond), exit, iterates, nil)
+			w := q.Escapes(isExactly(arm.Cond), exit, via, nil)
 			c.Check(w == nil, "C08.R4", sp.callee+" error: returned addresses recorded as Deleting ("+sp.fam+")", p.Pos(arm), fn.Key(), "must-pass: err != nil → for each returned item addIPToMap(eni."+sp.fam+", {Status: Deleting}) → return err", "path: "+p.describePath(w))
 		}
 	}
